@@ -49,7 +49,7 @@ let run (f : string list) : string =
        | None -> "?"
        | Some ty ->
            let n = int_of_string n in
-           let rs = List.map (fun h -> if h = "~" then None else Some (unhex h)) (take n rest) in
+           let rs = List.map (fun h -> if h = "~" || h = "~p" then None else Some (unhex h)) (take n rest) in
            let vals = match drop n rest with _ :: vs -> vs | [] -> [] in
            (match compile_chain ty [] rs with
             | Err e -> if int_of_n e = 11 then "OOB" else "E"
